@@ -111,6 +111,12 @@ func pivotOperator(_ *dataTreeNavigator, context Context, _ *ExpressionNode) (Co
 		case "!!seq":
 			pivot = pivotSequences(candidate)
 		case "!!map":
+			for _, row := range candidate.Content {
+				if row.Kind != MappingNode {
+					// e.g. `!!map [1]`: the tag says map, the node is not one
+					return Context{}, fmt.Errorf("can only pivot elements that are maps, but an element tagged %v is not a map", row.Tag)
+				}
+			}
 			pivot = pivotMaps(candidate)
 		default:
 			return Context{}, fmt.Errorf("can only pivot elements of !!seq or !!map types, received %v", tag)
